@@ -428,6 +428,13 @@ LAWS = [
         nontrivial=lambda c: abs(c['x']) not in (0, 0.5, 1, 2) or c['how'] == 'text' or not DOM[c['f']](c['x']),
         rule='22 unary functions x reals (grids of +-0, 1 ulp, 1e-9, 1e-3 around -1, 0, 1, +-pi/2, +-pi, integers -10..10; log-uniform 1e-9..1e9 both signs) given as variable, literal or numeric text: '
              'inside the domain the value equals the 50-digit reference within 1e-9 relative + 1e-12; outside it the outcome is an error; non-trivial = |x| not in {0, 0.5, 1, 2} or text argument or outside the domain'),
+    Law('integer_arguments', check_unary, quick=1000, thorough=60000, shards=(4, 8),
+        strategy=st.fixed_dictionaries({'f': st.sampled_from(['SQRT', 'ABS', 'LN', 'LOG10', 'ATAN', 'ASINH', 'DEGREES', 'RADIANS', 'ACOSH', 'ACOT']),
+                                        'x': st.one_of(st.integers(2 ** 53, 10 ** 30), st.integers(-10 ** 30, -2 ** 53), st.sampled_from([10 ** 17, 2 ** 53, 2 ** 60 + 1, 3 ** 40, 10 ** 20 - 1, 2 ** 100]), st.integers(0, 1000)),
+                                        'how': st.sampled_from(['var', 'lit', 'text'])}),
+        key=lambda c: c['f'], nontrivial=lambda c: abs(c['x']) >= 2 ** 53,
+        rule='10 unary functions whose value exists for large arguments x Python integers of 2^53..10^30 (either sign; exact integers such as POWER(10,17) or a long literal produce) and 0..1000, '
+             'as variable, literal or text: same criterion as unary_values (1e-9 relative against the 50-digit reference; an error outside the domain)'),
     Law('coercion', check_coercion, quick=1500, thorough=40000, shards=(4, 8),
         strategy=st.fixed_dictionaries({'f': st.sampled_from(UNARY), 'w': st.sampled_from(['text', 'text', 'true', 'false']), 'x': reals(), 'junk': junk_text,
                                         'sp': st.one_of(st.none(), st.integers(0, 16)), 'lit': st.booleans()}),
